@@ -236,9 +236,18 @@ class TlsServer(ServerCore):
         self.thread.start()
 
     def _run(self):
-        try:
-            self.lsock.settimeout(10)
-            raw, _ = self.lsock.accept()
+        # like a real server, keeps accepting: a client that gives up on one connection may come back with another one at once
+        timeout = 10
+        for attempt in range(3):
+            try:
+                self.lsock.settimeout(timeout)
+                raw, _ = self.lsock.accept()
+            except Exception as e:
+                if attempt == 0:
+                    self.error = e
+                break
+            timeout = 0.5
+            self.connections = getattr(self, 'connections', 0) + 1
             try:
                 self.conn = self.ctx.wrap_socket(raw, server_side=True)
                 self.handshake_ok = True
@@ -251,13 +260,13 @@ class TlsServer(ServerCore):
                 except Exception:
                     pass
                 raw.close()
-                self.done.set()
-                return
-        except Exception as e:
-            self.error = e
-            self.done.set()
-            return
-        self.serve()
+                continue
+            self.closed = False
+            self.done.clear()
+            self.serve()
+            if self.rx:
+                return              # NETCONF octets arrived on this connection: it was the session
+        self.done.set()
 
     def cleanup(self):
         self.close()
